@@ -16,7 +16,9 @@ IMPORTS = "From V Require Import Base.OptOrder Model.Sel Model.Aggregation Harne
 NAN = float("nan")
 ENCODINGS = [([0, 1, 2], NAN), ([10, 20, 30], -1), (["a", "b", "c"], "nan"), ([1, 2, 3], None),
              # integer label matrices whose classes include negatives (e.g. the binary -1 / +1 coding), integer sentinel
-             ([-1, 1, 2], 0), ([-2, 0, 1], -9), ([0, 1, 2], -1)]
+             ([-1, 1, 2], 0), ([-2, 0, 1], -9), ([0, 1, 2], -1),
+             # string classes that are PREFIXES of the string sentinel (a narrow '<U2' array truncates 'nan' to 'na')
+             (["n", "na", "x"], "nan"), (["no", "non", "yes"], "none")]
 
 
 def _u():
